@@ -791,6 +791,16 @@ class Spec:
                 self.note_allocated(X, result.t)
         # exits
         exits = ['return'] + list(ct.raises.keys())
+        # exceptions user code raises by design (declared by the spec module, e.g. Quit and
+        # SwitchWorld for the loop): what a callee may raise as "any other exception" may be one
+        # of them - one path each, with the clauses of the `$OtherException` exit
+        expand = [e for e in getattr(ct, 'expand_other', []) if e != '$OtherException'
+                  and e not in ct.raises]
+        alias = {}
+        if '$OtherException' in ct.raises and expand:
+            for e in expand:
+                exits.append(e)
+                alias[e] = '$OtherException'
         which = X.choose([True] * len(exits)) if len(exits) > 1 else 0
         X.old_stack.append(snap)
         try:
@@ -816,9 +826,12 @@ class Spec:
                     ex.fields[fname] = X.fresh(FT, 'exc_' + fname)
             env2 = dict(env)
             env2['exc'] = ex
-            for name, text, role in ct.raises[exc]:
+            for name, text, role in ct.raises[alias.get(exc, exc)]:
                 X.assume(self.eval_bool(X, text, env2, closure.module))
             ex.from_contract = ct.qual
+            hook = getattr(ct, 'raise_hooks', {}).get(exc) or getattr(self, 'raise_hooks', {}).get(exc)
+            if hook is not None:
+                hook(X, ex, env2)       # ghost bookkeeping of the raised exception
             raise PyRaise(ex)
         finally:
             X.old_stack.pop()
